@@ -28,8 +28,24 @@ pub enum TraitIndirection {
 #[derive(Clone, Copy)]
 pub struct TakesSelfByValue(pub bool);
 
+/// Whether any of the generated methods (of a fn, module or impl block) takes its receiver by value
 pub fn has_any_self_by_value<'s>(
+    signatures: impl Iterator<Item = &'s syn::Signature>,
+) -> TakesSelfByValue {
+    has_any_by_value(signatures, true)
+}
+
+/// Whether any of the methods of a hand-written trait takes `self` by value.
+/// (Its other parameters are the user's: one named `__impl` means nothing.)
+pub fn has_any_receiver_by_value<'s>(
+    signatures: impl Iterator<Item = &'s syn::Signature>,
+) -> TakesSelfByValue {
+    has_any_by_value(signatures, false)
+}
+
+fn has_any_by_value<'s>(
     mut signatures: impl Iterator<Item = &'s syn::Signature>,
+    generated: bool,
 ) -> TakesSelfByValue {
     TakesSelfByValue(signatures.any(|sig| match sig.inputs.first() {
         // `self` or `self: Self` (a typed receiver like `self: &Self` has no `reference` either)
@@ -38,7 +54,7 @@ pub fn has_any_self_by_value<'s>(
                 && matches!(receiver.ty.as_ref(), syn::Type::Path(ty) if ty.path.is_ident("Self"))
         }
         // the by-value `__impl: Impl<EntraitT>` of a fn in an impl block
-        Some(syn::FnArg::Typed(pat_type)) => {
+        Some(syn::FnArg::Typed(pat_type)) if generated => {
             matches!(pat_type.pat.as_ref(), syn::Pat::Ident(pat_ident) if pat_ident.ident == "__impl")
                 && !matches!(pat_type.ty.as_ref(), syn::Type::Reference(_))
         }
